@@ -390,7 +390,8 @@ impl EncodingVersion for EncodingVersion1 {
             return Self::deserialize_mmember(deserializer, member, dynamic_data);
         }
 
-        Err(XTypesError::InvalidData)
+        // The discriminator selects no member: only the discriminator was serialized
+        Ok(())
     }
 
     /// Extensibility APPENDABLE (Collection or Aggregated types), version 1
@@ -591,7 +592,8 @@ impl EncodingVersion for EncodingVersion2 {
             return Self::deserialize_mmember(deserializer, member, dynamic_data);
         }
 
-        Err(XTypesError::InvalidData)
+        // The discriminator selects no member: only the discriminator was serialized
+        Ok(())
     }
 
     /// Extensibility APPENDABLE (Collection or Aggregated types), version 2
@@ -1225,7 +1227,8 @@ impl<'a, E: EndiannessRead, V: EncodingVersion> XTypesDeserializer<'a, E, V> {
             return self.deserialize_fmember(member, dynamic_data);
         }
 
-        Err(XTypesError::InvalidData)
+        // The discriminator selects no member: only the discriminator was serialized
+        Ok(())
     }
 }
 
